@@ -253,6 +253,27 @@ def theorems_in(module):
     return names
 
 
+def fn_units_of(modules):
+    """generated function-level units (H4.Gen.Fn.<Unit>) that the given Lean modules import, directly or through project modules"""
+    seen, todo, units = set(), list(modules), set()
+    while todo:
+        m = todo.pop()
+        if m in seen:
+            continue
+        seen.add(m)
+        p = os.path.join(LEAN, m.replace(".", "/") + ".lean")
+        try:
+            txt = open(p).read()
+        except OSError:
+            continue
+        for imp in re.findall(r"^import\s+(H4\.\S+)", txt, re.M):
+            if imp.startswith("H4.Gen.Fn."):
+                units.add(imp[len("H4.Gen.Fn."):])
+            else:
+                todo.append(imp)
+    return sorted(units)
+
+
 def lake_build(targets):
     with lock("lake"):
         r = run(["lake", "build"] + targets, cwd=LEAN)
